@@ -191,6 +191,11 @@ def run(rep: Report, tier: str) -> None:  # noqa: C901
     rep.rule("R02.6", "clause validators (filter / calc / keep / drop / rename / sub / aggr ...) do not mutate the structure of their operand")
     from sa.checks.c12 import operand_mutations
     operand_mutations(P, rep, "R02.6", ("vtlengine.Operators.Clause",), floor=6)
+    # ---- R02.7 what a clause reads is a dependency of its statement (dependency analysis, shared with C12) ----
+    rep.rule("R02.7", "dependency analysis descends into clause bodies on every path; a script-level value read inside clauses of several statements is an input of each of them")
+    from sa.checks.c12 import traversal_on_every_path, unknown_resolution
+    traversal_on_every_path(P, rep, "R02.7", {"RegularAggregation", "BinOp", "UnaryOp"})
+    unknown_resolution(P, rep, "R02.7")
     rep.assumptions = ["abstract structures: names and roles only; expressions inside calc/filter are opaque", "SQL: WHERE keeps the rows for which its predicate is TRUE",
                        "inside the clause handlers SQLBuilder is a recording stand-in; that the real class conjoins its where() conditions is decided by R02.5"]
 
